@@ -417,6 +417,11 @@ func run(sc scenario) *result {
 			if n == 0 && p < 0 {
 				return
 			}
+			if p >= 0 && frames%4 == 1 && int64(over) <= avail {
+				// padding-only DATA frame (legal HTTP/2: pad-length octet and
+				// padding, no data); its whole length counts against both windows
+				n = 0
+			}
 			chunk := streamBytes[s][:n]
 			streamBytes[s] = streamBytes[s][n:]
 			last := len(streamBytes[s]) == 0 && sc.Role == "server"
